@@ -27,6 +27,7 @@ fn driver(prop: &str) -> Option<(&'static str, fn(&mut Cx, &mut Rng) -> R)> {
         "C04" => ("C04", props::c04::case),
         "C05" => ("C05", props::c05::case),
         "C06" => ("C06", props::c06::case),
+        "C07" => ("C07", props::c07::case),
         "C08" => ("C08", props::c08::case),
         "C09" => ("C09", props::c09::case),
         "C10" => ("C10", props::c10::case),
